@@ -647,6 +647,11 @@ func (fe *FnEnc) loadVal(p Val, t types.Type, pos token.Pos, src ssa.Value) Val 
 			return pv
 		}
 	}
+	if hk := fe.s.heapPtrKey(a); hk != "" {
+		if pv, ok := fe.mem.ptrs[hk]; ok {
+			return pv
+		}
+	}
 	switch u := types.Unalias(t).Underlying().(type) {
 	case *types.Slice:
 		es := s.sortOf(u.Elem())
@@ -689,6 +694,27 @@ func (fe *FnEnc) storeTo(a *Addr, v Val) {
 			return
 		}
 		delete(fe.mem.ptrs, a.Cell)
+	}
+	if a.Root == rootHeap {
+		// interior pointers stored in a field of an object allocated by this call are kept at generator
+		// level (keyed by field and fresh reference); any other store to that field forgets them
+		hk := fe.s.heapPtrKey(a)
+		for _, k := range fe.s.heapKeysOf(a) {
+			for pk := range fe.mem.ptrs {
+				if strings.HasPrefix(pk, "heap:"+k+"@") && pk != hk {
+					delete(fe.mem.ptrs, pk)
+				}
+			}
+		}
+		if hk != "" {
+			if v.Term == "" && v.Addr != nil && (len(v.Addr.Steps) > 0 || v.Addr.Root != rootHeap) {
+				fe.mem.ptrs[hk] = v
+				junk := fe.s.fresh("ip", "Int")
+				fe.recordMod(fe.s.store(fe.mem, a, junk))
+				return
+			}
+			delete(fe.mem.ptrs, hk)
+		}
 	}
 	term := fe.valTerm(v)
 	keys := fe.s.store(fe.mem, a, term)
